@@ -6,7 +6,11 @@ properties).  A pom is abstracted to its dependency entries and property entries
 `buildOriginalRequirements` / `buildPropertiesWithOrigins` list them; XML tokenising, escaping and
 layout are outside this model (checked byte-wise by the harness for the "no updates" case).
 
-Not modelled (the generator stays outside): local parent POMs (`parent@path` origins), the
+Keys may hold `${project.groupId}` / `${pom.version}`-style placeholders (`ResolvedKey`, fix e5fd6d2f) or a user property
+(not resolved by the writer: class C13/pom-key-property).
+
+Not modelled (the generator stays outside): two entries of one section with the same interpolated key (deps.dev keeps the
+first), local parent POMs (`parent@path` origins), the
 `<parent>` element itself, plugins, dependencyManagement imports, active profiles, property values that
 reference other properties.
 -/
@@ -43,6 +47,7 @@ structure Pom where
   deps : List Dep
   props : List Prp
   projVersion : Str  -- ${project.version}
+  projGroup : Str    -- ${project.groupId}
 deriving Repr, DecidableEq
 
 /-- `result.PackageUpdate` for Maven: Name (expected to be `groupId:artifactId`), the `dep.Type` attributes that
@@ -96,10 +101,24 @@ def addPatch (ps : List DPatch) (p : DPatch) : List DPatch :=
     ps.map fun q => if q.origin = p.origin ∧ q.key = p.key ∧ q.newReq = p.newReq then p else q
   else ps ++ [p]
 
-/-- `OriginalDependency`: first dependency with the update's key and a non-empty version -/
-def originalDependency (u : Upd) (deps : List Dep) : Option Dep :=
+/-- a dependency key with `${…}` replaced through `σ` (a name `σ` does not define stays as it is) -/
+def interpKey (σ : Str → Option Str) (d : Dep) : Key :=
+  (interpolate σ d.g, interpolate σ d.a, interpolate σ (normTyp d.typ), interpolate σ d.cls)
+
+/-- `projectCoordinates` (fix e5fd6d2f): the placeholders `buildOriginalRequirements` replaces in a key — the project's own
+group id and version under the `project.` and `pom.` prefixes; an empty value is skipped.  (`project.parent.*` too in the
+code; this model has no `<parent>`.)  The code does one `strings.ReplaceAll` per name, which is this left-to-right
+replacement as long as the values themselves hold no `${`. -/
+def coordDict (pom : Pom) (n : Str) : Option Str :=
+  if n = "project.groupId".toList ∨ n = "pom.groupId".toList then (if pom.projGroup = [] then none else some pom.projGroup)
+  else if n = "project.version".toList ∨ n = "pom.version".toList then (if pom.projVersion = [] then none else some pom.projVersion)
+  else none
+
+/-- `OriginalDependency`: first dependency with the update's key — as written, or as `ResolvedKey` has it — and a
+non-empty version -/
+def originalDependency (σ : Str → Option Str) (u : Upd) (deps : List Dep) : Option Dep :=
   if u.ga.isNone then none                       -- `len(IDs) != 2`: the empty DependencyWithOrigin
-  else deps.find? fun d => d.key = u.key && d.ver ≠ []
+  else deps.find? fun d => (d.key = u.key || interpKey σ d = u.key) && d.ver ≠ []
 
 def hasPrefix (p s : Str) : Bool := p.isPrefixOf s
 
@@ -128,11 +147,12 @@ a `dep.Type` carrying both Test and Scope, is not representable here) -/
 def buildPatch1 (pom : Pom) (ps : Patches) (u : Upd) : Option Patches :=
   if u.ga.isNone then none else
   some <|
-  match originalDependency u pom.deps with
+  match originalDependency (coordDict pom) u pom.deps with
   | none =>
     -- not in the base project: goes to dependencyManagement
     { ps with deps := addPatch ps.deps ⟨sManagement, u.key, u.to, false⟩ }
   | some od =>
+    -- `patch.Name = origDep.Name()`: the patch carries the key as the file spells it
     let direct : DPatch := ⟨od.origin, od.key, u.to, true⟩
     if !containsProperty od.ver then { ps with deps := addPatch ps.deps direct } else
     match gen od.ver u.to with
@@ -188,6 +208,7 @@ deriving Repr, DecidableEq
 /-- the interpolation dictionary of the project itself -/
 def dict (pom : Pom) (n : Str) : Option Str :=
   if n = "project.version".toList ∨ n = "version".toList ∨ n = "pom.version".toList then some pom.projVersion
+  else if n = "project.groupId".toList ∨ n = "groupId".toList ∨ n = "pom.groupId".toList then some pom.projGroup
   else ((pom.props.filter (·.origin = [])).reverse.find? (·.name = n)).map (·.value)
 
 /-- true when every `${…}` of the string is defined (deps.dev drops a dependency it cannot interpolate) -/
@@ -203,6 +224,10 @@ def resolvable (σ : Str → Option Str) : Nat → Str → Bool
       | some e => (σ (after.take e)).isSome && resolvable σ fuel (after.drop (e + 1))
 
 def attrOrigin (o : Str) : Str := if sManagement.isSuffixOf o then sManagement else []
+
+def keyResolvable (σ : Str → Option Str) (d : Dep) : Bool :=
+  resolvable σ (d.g.length + 1) d.g && resolvable σ (d.a.length + 1) d.a &&
+  resolvable σ ((normTyp d.typ).length + 1) (normTyp d.typ) && resolvable σ (d.cls.length + 1) d.cls
 
 /-- dictionary seen by a dependency inside a profile: the profile's own properties shadow the project's -/
 def profDict (pom : Pom) (profOrigin : Str) (n : Str) : Option Str :=
@@ -220,8 +245,9 @@ def requirements (pom : Pom) : List Req :=
       let σ := profDict pom (cutSuffix d.origin ('@' :: sManagement))
       some ⟨attrOrigin d.origin, d.key,
         if resolvable σ (d.ver.length + 1) d.ver then interpolate σ d.ver else d.ver⟩
-    else if resolvable (dict pom) (d.ver.length + 1) d.ver then
-      some ⟨attrOrigin d.origin, d.key, interpolate (dict pom) d.ver⟩
+    else if resolvable (dict pom) (d.ver.length + 1) d.ver && keyResolvable (dict pom) d then
+      -- deps.dev interpolates the coordinates as well: the requirement is known by its interpolated key
+      some ⟨attrOrigin d.origin, interpKey (dict pom) d, interpolate (dict pom) d.ver⟩
     else none
 
 end Scalibr.Pom
